@@ -88,7 +88,7 @@ theorem possible_plain {w : World} {c : Call} {r : Res} (hp : Possible w c r) (h
 theorem possible_handle {w : World} {c : Call} {r : Res} (hp : Possible w c r) (hc : createsHandle c = true)
     (hpl : Call.plain c = true) : r = .ok w.handles.length ∨ ∃ e, r = .err e := by
   rcases possible_plain hp hpl with ⟨v, rfl⟩ | h
-  · exact .inl (by rw [hp.2 hc v rfl])
+  · exact .inl (by rw [hp.2 hc])
   · exact .inr h
 
 theorem possible_write {w : World} {fd : Handle} {data : Bytes} {r : Res} (hp : Possible w (.write fd data) r) :
